@@ -47,6 +47,8 @@ func init() {
 			{ID: "C10.24", Desc: "no nil dereference when the origin's response has no Body (closes are nil-guarded)", Run: func(c *Ctx) { ruleUpstreamBodyCloseGuarded(c, "C10.24") }, MinSites: 1},
 			{ID: "C10.25", Desc: "the origin's own response reaches the client readable (its body is not closed on the way)", Run: func(c *Ctx) { ruleForwardedBodyNotClosed(c, "C10.25") }, MinSites: 1},
 			{ID: "C10.26", Desc: "no error returned by a call is overwritten or dropped without having been looked at", Run: func(c *Ctx) { ruleNoDeadErrorValues(c, "C10.26") }, MinSites: 1},
+			{ID: "C10.27", Desc: "a configured store timeout below the default is honoured (a blocked store operation fails open in time)", Run: func(c *Ctx) { ruleConfiguredTimeoutWins(c, "C10.27") }, MinSites: 1},
+			{ID: "C10.28", Desc: "the index reader hands out no partially decoded list", Run: func(c *Ctx) { ruleIndexReaderReturnsNilOnError(c, "C10.28") }, MinSites: 1},
 		},
 	})
 }
